@@ -52,6 +52,10 @@ def run(P, R, L):
     from . import blind as _blind
     R.clause("ENUM-1", "the hand-written tag decoders (Operation, BlockType, compression type, manifest field tags) invert the enums' discriminants")
     R.once(_blind.enum1_tag_decoders, P, R, L)
+    R.clause("BLKW-1", "the entry header lengths of a block reach the buffer only as varint-encoder output")
+    R.once(_blind.blkw1_entry_header_through_the_codec, P, R, L)
+    R.clause("OWN-15", "`not in this file` is built only by Table::get")
+    R.once(_blind.own15_who_may_say_not_found, P, R, L)
     R.clause("GRD-37", "a block handle (footer / index entry) is compared with the file length before a buffer of its size is allocated: a damaged handle is an error, not an allocator abort")
     R.once(_blind.grd37_block_handle_within_the_file, P, R, L)
     R.not_decided += ["prefix compression, separators, seek positions, iteration order (computed bytes)"]
